@@ -68,7 +68,10 @@ func scriptsOf(v any) []callScript {
 
 type tagConsumer struct{}
 
-func (*tagConsumer) Consume(r io.Reader, _ interface{}) error { _, err := io.Copy(io.Discard, r); return err }
+func (*tagConsumer) Consume(r io.Reader, _ interface{}) error {
+	_, err := io.Copy(io.Discard, r)
+	return err
+}
 
 // world: everything one case shares.
 type world struct {
